@@ -22,8 +22,27 @@ PLAN = [
 ]
 
 
+CLOSE_ASSUMPTIONS = [
+    "wrapper layer (mirsym/c08_wrappers.py): the `async move` blocks of compio-fs File::close and compio-net Socket::close are "
+    "interpreted with uninterpreted functions (SharedFd::take, into_inner, the op constructors, submit): close awaits take() of "
+    "its own descriptor exactly once, uses no uniqueness shortcut, and then closes exactly the descriptor take() handed over with "
+    "one CloseFile / CloseSocket operation (or does nothing when take() yields None)",
+    "what take() itself guarantees (resolves only after every other handle is gone, at most one taker gets the descriptor) is the "
+    "Kani layer above; the other close paths (pipes, processes, listener types forwarding to Socket::close) are outside",
+]
+
+
 def run(tier):
-    return kaniprop.run("C06", tier, PLAN, ASSUMPTIONS)
+    import sys, os
+    sys.path.insert(0, os.path.join(os.path.dirname(os.path.abspath(__file__)), "..", "mirsym"))
+    import multiprop
+    import mirprop
+    from wrapplan import WrapPlan
+    return multiprop.run("C06", tier, [
+        ("SharedFd (kani)", lambda: kaniprop.run("C06", tier, PLAN, ASSUMPTIONS)),
+        ("close wrappers, compio-net (mirsym)", lambda: mirprop.run("C06", tier, WrapPlan("compio-net", ["compio-driver/io-uring"], only=r"::close$"), CLOSE_ASSUMPTIONS)),
+        ("close wrappers, compio-fs (mirsym)", lambda: mirprop.run("C06", tier, WrapPlan("compio-fs", ["compio-driver/io-uring"], only=r"::close$"), CLOSE_ASSUMPTIONS)),
+    ])
 
 
 def replay(path):
